@@ -19,13 +19,15 @@ class Product:
         self.kind = kind
         self.tag = tag or f"p{os.getpid()}_{next(_counter)}"
         self.storage_options = {}
-        if kind in ("mcfs", "mcfs-shared"):
+        if kind in ("mcfs", "mcfs-shared", "amcfs"):
             self.store = f"st_{self.tag}"
             vfs.put_product(self.store, "/prod", files)
-            self.url = "mcfs://prod"
+            self.url = "mcfs://prod" if kind != "amcfs" else "amcfs://prod"
             self.storage_options = {"store": self.store}
             if kind == "mcfs-shared":  # open() hands out one shared, rewound file object per path (like memory://)
                 self.storage_options["shared_handles"] = True
+                self.kind = kind = "mcfs"
+            if kind == "amcfs":  # an async fsspec implementation over the same store; every other handling is mcfs'
                 self.kind = kind = "mcfs"
             self.dir = None
         elif kind in ("local", "file"):
